@@ -17,6 +17,14 @@ def plan(ctx):
 
 def run(ctx):
     res = sf.run_store(ctx, "C01", ["fiber", "tensor"], plan(ctx))
+    from . import c05
+    viol, n, ev, vst = c05.side_check(ctx, "C01", "P:C05:wf-throughout", "P:C01:populate-wellformed")
+    res["violations"] += viol
+    res["traces"] += n
+    res["evaluations"] += ev
+    res["states"] += vst["distinct"]
+    res["transitions"] += vst["generated"]
+    res["scope"]["populate_programs"] = n
     res["assumptions"] = ["ordered/unique fibers only", "update callbacks return boxed legal payloads",
                           "raw (unowned) fibers are exercised at depth 1, deeper trees through tensors",
                           "populate loops are exercised by C05's programs (same well-formedness clauses)"]
@@ -24,4 +32,7 @@ def run(ctx):
 
 
 def replay(ctx, rec):
+    if rec.get("pop"):
+        from . import c05
+        return c05.replay(ctx, rec)
     return sf.replay_store(ctx, rec, "C01")
